@@ -256,6 +256,9 @@ SCOPE_TEMPLATES = [
     '(t := amount * 2) > lim and t < 1000',
     'next((r.item for r in orders if r.n > %(k)d), "none")',
     'next((r.n for r in orders if r.n > 5), %(n)s)',
+    # positions count from the end when negative, as in Python (and fail beyond either end)
+    'orders[-1].item if orders else "-"', '[r.item for r in orders if r.n > 0][-1] if orders else "-"', 'description[-1] if description else "-"',
+    '(m := [r.n for r in orders]) and m[-1] == m[len(m) - 1]', '[r.n for r in orders][-%(k)d - 1]', 'description[-%(k)d - 2]', 'orders[-1].n + orders[0].n',
     # the FIRST element decides, whatever it is: 0, false and "" are elements like any other, not "nothing found"
     'next((r.n - 1 for r in orders), %(n)s)',
     'next((r.n - %(k)d - 1 for r in orders if r.n > %(k)d), 9)',
